@@ -166,11 +166,14 @@ const (
 	opReset
 	opSetBad  // Set with a value of another type through a by-pointer mocker: rejected (panic), must change nothing
 	opForeign // the program itself assigns the variable (not through goom)
+	// opApplyK: Apply with a callback made by one factory (reflect.MakeFunc: one code pointer for
+	// all of them) that returns v[0] on its 1st, 3rd, … use in the history and v[1] on the others
+	opApplyK
 	nOps
 	opGC = 100 // builder-independent; only in the alphabet of heap-original variables
 )
 
-var opNames = []string{"Set1", "Set2", "Apply3", "Lookup", "Cancel", "Reset", "SetWrongType", "ForeignWrite"}
+var opNames = []string{"Set1", "Set2", "Apply3", "Lookup", "Cancel", "Reset", "SetWrongType", "ForeignWrite", "ApplyNext"}
 
 // Case is the replayable artefact.
 type Case struct {
@@ -258,6 +261,7 @@ func run(sp *varSpec, byName bool, ops []int) (fail string, judged bool) {
 		}
 	}
 	var m [2]builderModel
+	nApplyK := 0
 	cur := orig    // epoch reading
 	curLit := orig // literal reading ("before its first mock in that builder")
 	judged = true
@@ -294,20 +298,34 @@ func run(sp *varSpec, byName bool, ops []int) (fail string, judged bool) {
 				vk.Try(func() { h[bi].Set(wrongType{1}) })
 			case opForeign:
 				reflect.ValueOf(sp.ptr).Elem().Set(reflect.ValueOf(sp.v[2]))
+			case opApplyK:
+				typ := reflect.TypeOf(sp.ptr).Elem()
+				ret := reflect.New(typ).Elem()
+				if v := sp.v[nApplyK%2]; v != nil {
+					ret.Set(reflect.ValueOf(v))
+				}
+				h[bi].Apply(reflect.MakeFunc(reflect.FuncOf(nil, []reflect.Type{typ}, false), func([]reflect.Value) []reflect.Value {
+					return []reflect.Value{ret}
+				}).Interface())
 			}
 		})
 		if panicked {
 			return fmt.Sprintf("step %d %s panicked: %s", step, opString(op), vk.Short(msg, 160)), true
 		}
 		switch o {
-		case opSet1, opSet2, opApply3:
+		case opSet1, opSet2, opApply3, opApplyK:
 			if !m[bi].recorded {
 				m[bi].recorded, m[bi].origin = true, cur
 			}
 			if !m[bi].everMocked {
 				m[bi].everMocked, m[bi].first = true, curLit
 			}
-			cur, curLit = sp.v[o], sp.v[o]
+			if o == opApplyK {
+				cur, curLit = sp.v[nApplyK%2], sp.v[nApplyK%2]
+				nApplyK++
+			} else {
+				cur, curLit = sp.v[o], sp.v[o]
+			}
 		case opForeign:
 			cur, curLit = sp.v[2], sp.v[2]
 		case opCancel, opReset:
@@ -431,7 +449,7 @@ func Run(c *vk.Ctx) {
 						cs := Case{sp.name, byName, opsToStrings(prefix)}
 						mocked := false
 						for _, o := range prefix {
-							if o != opGC && (o%nOps <= opApply3 || o%nOps == opForeign) {
+							if o != opGC && (o%nOps <= opApply3 || o%nOps == opForeign || o%nOps == opApplyK) {
 								mocked = true
 							}
 						}
